@@ -144,6 +144,9 @@ class Opaque:
         return '<opaque %s>' % self.origin
 
 
+_NoneConst = object()      # a library constant whose value is None (e.g. numpy.newaxis), as opposed to "name not found"
+
+
 class FmtStr:
     """'%06d' % n  kept abstract: decimal text of a symbolic integer"""
 
@@ -372,6 +375,9 @@ class Interp:
                     found = v
         if found is None:
             return self.builtin_lookup(name)
+        if found is _NoneConst:
+            self.ctx.modstate[key] = None
+            return None
         if isinstance(found, tuple):
             fr = Frame(FuncRef(module, ast.FunctionDef(name='<module>', body=[], args=None), qual='<module>'), {})
             fr.is_module = True
@@ -409,6 +415,9 @@ class Interp:
 
     def resolve_dotted(self, dotted, _depth=0):
         """dotted global name -> value (repo def, module, or trusted model)"""
+        consts = getattr(self.models, 'CONSTS', {})
+        if dotted in consts:
+            return _NoneConst if consts[dotted] is None else consts[dotted]
         m = self.models.lookup(dotted)
         if m is not None:
             return m
@@ -963,6 +972,12 @@ class Interp:
     def x_FunctionDef(self, st, frame):
         self.store_name(st.name, FuncRef(frame.module, st, closure=frame, owner=None,
                                          qual=frame.func.qual + '.' + st.name), frame)
+
+    def x_ClassDef(self, st, frame):
+        # a class defined inside a function body (no closure over locals is modelled: bases/decorators must be module-level)
+        if st.decorator_list or st.keywords:
+            raise Unsupported('decorated local class')
+        self.store_name(st.name, self.classref(frame.module, st), frame)
 
     def x_Import(self, st, frame):
         for a in st.names:
